@@ -1173,7 +1173,15 @@ def c10_oracle(label, text, r):
     hw = series
     bad = None
     warm = 40
-    if pin == "chain":
+    if meta["workload"] == "bigfree":
+        # cycles of (fill 400 keys, delete them): every cycle needs the same pages again
+        if hw[-1] > hw[3] * 1.1 + 8:
+            bad = "fill / delete cycles with a multi-page free list: %d pages after 2 cycles, %d after %d" % (hw[3], hw[-1], n // 2)
+    elif pin == "shuffle":
+        # steady state: the same pattern of readers repeats every 60 commits, so the file must not grow from period to period
+        if n >= 240 and hw[-1] > hw[n - 61] * 1.15 + 16:
+            bad = "readers on three snapshots closed oldest / newest / middle: file grows from period to period (%d pages one period before the end, %d at the end)" % (hw[n - 61], hw[-1])
+    elif pin == "chain":
         # some reader is open at every writer begin, each for 25 commits: pages must still be released as the oldest reader
         # moves on, so the file stops growing once the chain is in steady state
         half = hw[n // 2]
@@ -1191,7 +1199,7 @@ def c10_oracle(label, text, r):
     else:
         if hw[-1] > hw[warm] * 1.15 + 4 and meta["workload"] in ("fixed1", "fixedN", "bdel", "bdelN"):
             bad = "file grew from %d to %d pages after warm-up although live data is constant" % (hw[warm], hw[-1])
-    if not bad and meta["workload"] == "var" and pin != "chain":
+    if not bad and meta["workload"] == "var" and pin not in ("chain", "shuffle"):
         third = hw[2 * n // 3]
         if hw[-1] > third * 1.25 + 8:
             bad = "variable-size workload: file still growing in the last third (%d -> %d pages)" % (third, hw[-1])
@@ -1212,6 +1220,19 @@ def cases_c10(tier, seed):
             C10_META[label] = dict(workload=wl, ntx=n, pin=pin)
             cases.append((label, gen.g10(seed * 10 + k, wl, ntx=n, pin=pin, reopen_every=reopen)))
             k += 1
+    # readers on three snapshots closed oldest / newest / middle, repeatedly (the registry of open readers must stay right)
+    for wl in ("fixed1", "fixedN") if q else ("fixed1", "fixedN", "bdel", "var"):
+        label = "g10 %s ntx=%d pin=shuffle reopen=0 seed=%d" % (wl, n, seed * 10 + k)
+        C10_META[label] = dict(workload=wl, ntx=n, pin="shuffle")
+        cases.append((label, gen.g10(seed * 10 + k, wl, ntx=n, pin="shuffle")))
+        k += 1
+    # a free list of several hundred ids (several pages of ids), with and without a reopen after every cycle
+    nb = 24 if q else 80
+    for reopen in (2, 0):
+        label = "g10 bigfree ntx=%d pin=None reopen=%d seed=%d" % (nb, reopen, seed * 10 + k)
+        C10_META[label] = dict(workload="bigfree", ntx=nb, pin=None)
+        cases.append((label, gen.g10(seed * 10 + k, "bigfree", ntx=nb, pin=None, reopen_every=reopen)))
+        k += 1
     return cases
 
 
